@@ -21,17 +21,24 @@ class FakeMesh:
 class RecDisc:
     """duck-typed discretisation: rhs(f) logs (time, data) and returns
     c0 + c1 t + (c2 + c3 t) q_i + c4 q_i q_{i+1 mod n}   (same formula as Flowdyn.Exec.testR)"""
-    def __init__(self, c, n):
+    def __init__(self, c, n, buffered=False):
         self.c = [float(x) for x in c]
         self.nelem = n
         self.calls = []
+        # buffered: the right-hand side writes into one preallocated output and returns the SAME list and arrays at every call
+        # ("for every right-hand side": an integrator that keeps stage slopes must copy them)
+        self.buf = [np.zeros(n)] if buffered else None
 
     def rhs(self, f):
         t = float(f.time)
         qd = np.array(f.data[0], dtype=float)
         self.calls.append((t, qd.copy()))
         c = self.c
-        return [c[0] + c[1] * t + (c[2] + c[3] * t) * qd + c[4] * qd * np.roll(qd, -1)]
+        out = c[0] + c[1] * t + (c[2] + c[3] * t) * qd + c[4] * qd * np.roll(qd, -1)
+        if self.buf is not None:
+            self.buf[0][:] = out
+            return self.buf
+        return [out]
 
 
 def explicit_classes(ctx):
@@ -67,13 +74,13 @@ def one_case(rng, cls, edge=False):
     else:
         dt = [abs(dyadic(rng, 0.05, 0.5)) + 2.0 ** -6]
     q0 = [dyadic(rng) for _ in range(n)]
-    return dict(cls=cls, n=n, c=c, t0=t0, dt=dt, q0=q0)
+    return dict(cls=cls, n=n, c=c, t0=t0, dt=dt, q0=q0, buffered=bool(rng.random() < 0.3))
 
 
 def run_impl(case):
     cls = getattr(impl.integ, case['cls'])
     n = case['n']
-    disc = RecDisc(case['c'], n)
+    disc = RecDisc(case['c'], n, buffered=bool(case.get('buffered')))
     solver = cls(FakeMesh(n), disc)
     f = impl.field.fdata(FakeModel(), FakeMesh(n), [np.array(case['q0'], dtype=float)], t=case['t0'])
     dt = case['dt'][0] if len(case['dt']) == 1 else np.array(case['dt'], dtype=float)
